@@ -119,7 +119,7 @@ def shard(seed, items, tier):
         bytes_out = sum(d['n'] for k, d in ev if k in ('read', 'readall'))
         steps = [d for k, d in ev if k == 'steps']
         total_steps = sum(d['reads'] + d['skips'] for d in steps)
-        if c.kind >= 2:
+        if True:      # FILE-backed kinds are counted too (stdio calls made by library code, see allocmon.c)
             bud = budget_for(len(c.archive), members, bytes_out)
             ratio = total_steps / bud
             sh.cov['max_steps_over_budget_permille'] = max(sh.cov.get('max_steps_over_budget_permille', 0), int(ratio * 1000))
